@@ -26,6 +26,7 @@
 
 #include "allocrus.h"
 #include "trace.h"
+#include "logging-private.h"
 
 /* Version 2.4 and later of GCC define a magical variable `__PRETTY_FUNCTION__'
    which contains the name of the function currently being defined.
@@ -140,7 +141,7 @@ extern void ILL_report (
 #define ILL_FAILfalse_no_rval(expr, msg)  ILL_FAILtrue_no_rval(!(expr), msg)
 
 #define ILL_ERROR(rval, msg)      {									\
-									fprintf(stderr, "%s\n", msg);	\
+									QSlog("%s", msg);				\
 									rval = 1; goto CLEANUP;			\
 								  }
 #define ILL_CLEANUP_IF(rval)      { if ((rval) != 0) { goto CLEANUP; } }
